@@ -16,6 +16,8 @@ anyvec_pbt::configs! {
     Pl0_Multi:    Pl0,    Multi, dyn Cloneable, G_LAYOUT;
     Pl160_Multi:  Pl160,  Multi, dyn Cloneable, G_LAYOUT;
     Tr16_Heap:    Tr16,   Heap,   dyn Cloneable, G_RAW;
+    Tr0a16_Heap:  Tr0a16, Heap,   dyn Cloneable, G_RAW;
+    Tr64_Heap:    Tr64,   Heap,   dyn Cloneable, G_RAW;
     Tr8_Guard:    Tr8,    GuardB, dyn Cloneable, G_BACKEND | G_FAULT;
     Tr0_Stack:    Tr0,    Stack<8>,       dyn Cloneable, G_BACKEND | G_STACK;
     Tr8_Heap_None:  Tr8, Heap, dyn None,                    G_CONSTRAINT | G_RAW;
